@@ -162,8 +162,46 @@ def analyse(c, r):
     return probs, samples
 
 
+def instant_family(res, tier, rnd):
+    """external commands that return at once (the renderer is stopped and started again within microseconds), 1-3 in a
+    row, inline and alt screen, with and without callback: afterwards the program paints again - the view of the next
+    update is on the screen before the update after it begins"""
+    scs, metas = [], []
+    for i in range(16 if tier == "quick" else 200):
+        alt, cb, n = bool(i & 1), bool(i & 2), 1 + (i // 4) % 3
+        script = [P.W("started"), P.W("idle")]
+        for k in range(n):
+            script += [P.DO("send", msg=P.B("exec", fast=True, cb=cb)), P.DO("sleep", us=rnd.choice([0, 0, 2000]))]
+        script += [P.DO("sleep", us=30000), P.W("idle"), P.DO("send", msg=P.U(600)), P.DO("sleep", us=80000), P.W("idle"),
+                   P.DO("send", msg=P.U(601)), P.W("idle"), P.DO("kill"), P.W("returned")]
+        scs.append(P.scenario(i, script, opts={"fps": 120, "alt": alt}, inp={"kind": "pipe"}, parallel_ok=True, watchdog_ms=5000))
+        metas.append({"alt": alt, "callback": cb, "execs": n})
+    results, _ = P.run_scenarios("C17_instant", scs, timeout=900)
+    bad = []
+    for m, r in zip(metas, results):
+        if P.machinery_problem(r) or not r["run_returned"]:
+            bad.append((m, "scenario did not complete: %s" % P.summarize(r)))
+            continue
+        ev = r["events"]
+        u601 = next((e for e in ev if e["ev"] == "UpdateBegin" and e.get("key") == "u:601"), None)
+        if u601 is None:
+            bad.append((m, "marker missing"))
+            continue
+        shown = bytes(r["output"])[:u601["outlen"]]
+        want = b"view %d" % u601["ver"]
+        if want not in shown:
+            import re as _re
+            bad.append((m, "after %d external command(s) that returned at once (%s, %s) the view of the next update (%s) was still not painted 80 ms and one idle period later; last painted: %s" %
+                        (m["execs"], "alt screen" if m["alt"] else "inline", "callback" if m["callback"] else "no callback", want.decode(), _re.findall(rb'view \d+', shown)[-1:])))
+    res.oblige("Spec on real runs: after external commands that return at once the program paints again (%d runs)" % len(scs), not bad, [b[1] for b in bad[:2]])
+    for m, what in bad[:1]:
+        res.violation("C17:no-repaint:instant", what, {"scenario_meta": m})
+    res.coverage["instant_exec_family"] = len(scs)
+
+
 def run(res, tier, seed):
     rnd = random.Random(seed * 7919 + 17)
+    instant_family(res, tier, random.Random(seed * 7919 + 171))
     proofs_ok, broken, cex = L.skeleton_obligations(res, PROPS, OBL)
     okb, out = C.build_harness()
     if not okb:
